@@ -150,7 +150,7 @@ struct Model<'a> {
     sys: &'a Sys,
     states: Vec<Val>,
     inputs: Vec<Val>,
-    snapshots: Vec<Vec<Val>>,
+    snapshots: Vec<(Vec<Val>, Vec<Val>)>,
 }
 
 fn is_zero(v: &Val) -> bool {
@@ -390,7 +390,7 @@ fn judge(scn: &SimScenario, acc: &mut Acc) -> Option<Violation> {
                         result = Some(mk("SnapshotId", "take_snapshot".into(), format!("op #{opi}: snapshot id {id} for the {}-th snapshot", model.snapshots.len())));
                         return Ok(());
                     }
-                    model.snapshots.push(model.states.clone());
+                    model.snapshots.push((model.states.clone(), model.inputs.clone()));
                 }
                 Op::Restore(k) => {
                     if model.snapshots.is_empty() {
@@ -401,11 +401,32 @@ fn judge(scn: &SimScenario, acc: &mut Acc) -> Option<Violation> {
                         *probes.entry("probe.restore_non_latest_snapshot").or_insert(0) += 1;
                     }
                     sim.restore_snapshot(k as u32);
-                    model.states = model.snapshots[k].clone();
+                    model.states = model.snapshots[k].0.clone();
                     last_mut = "restore";
                     let (rs, ri) = read_all(&sim);
-                    // the statement promises state values; inputs are adopted as read back
-                    model.inputs = ri;
+                    // "the continuation behaves as it did the first time": an input that was set
+                    // before the snapshot and is not set again by the continuation is part of that
+                    // behaviour, so the input values in force when the snapshot was taken are in
+                    // force again (this is what the implementation does: it copies the whole
+                    // value store; the trait's doc comment "excluding inputs" promises less than
+                    // the property does)
+                    model.inputs = model.snapshots[k].1.clone();
+                    for i in 0..sys.inputs.len() {
+                        n_cmp += 1;
+                        if ri[i] != model.inputs[i] {
+                            result = Some(mk(
+                                "WrongValue",
+                                "input-after-restore".into(),
+                                format!(
+                                    "op #{opi} restore({k}): input `{}` reads {} but had {} when the snapshot was taken, so the continuation does not behave as it did the first time",
+                                    sys.inputs[i].0,
+                                    ri[i].show(),
+                                    model.inputs[i].show()
+                                ),
+                            ));
+                            return Ok(());
+                        }
+                    }
                     for i in 0..sys.states.len() {
                         n_cmp += 1;
                         if rs[i] != model.states[i] {
@@ -746,7 +767,7 @@ impl Property for C07 {
             rule: "generated systems (bit-vector and array states, states with/without init, init reading earlier states, init-without-next, constant states, swap/rotate shapes, no division) enter patronus as btor2 text; sim::Interpreter is driven by a seeded history of 3..40 operations {init(Zero), init(Random(s)), set(input), set(state), step, get(state|input|output|bad|constraint|next/init root|named node|random sub-expression), take_snapshot, restore_snapshot(any earlier id), re-init} and compared after every operation with a reference model (map + independent evaluator, snapshots = clones): all states after init/step/restore, every get. Random init values are adopted on first read, checked for sort, and checked for determinism against a later init with the same seed and against a second simulator with a different prior history. Distinct by (system shape, op-kind 3-grams).".into(),
             assumptions: vec![
                 "a state without next keeps its value in the simulator (the simulator's documented reading)".into(),
-                "after restore_snapshot only state values are promised: inputs are adopted as read back".into(),
+                "after restore_snapshot the input values in force when the snapshot was taken are expected to be in force again (needed for `the continuation behaves as it did the first time`; the implementation copies the whole value store)".into(),
             ],
             real_components: vec!["btor2::parse_str", "sim::Interpreter (init, step, set, get, take_snapshot, restore_snapshot)", "sim::InitValueGenerator", "expr::eval_expr"],
             stub_components: vec!["none (the operation history is the schedule; the reference model is the oracle)"],
